@@ -24,7 +24,7 @@ import struct
 from pathlib import Path
 
 from vlib import symgen, symobs, tlc
-from vlib.common import CACHE, SPECS, ToolError, build_wild, save_replay, scratch, trim_samples
+from vlib.common import CACHE, SPECS, ToolError, build_wild, log, save_replay, scratch, trim_samples
 from vlib.elf import Elf
 
 PROP = "C32"
@@ -58,9 +58,11 @@ def model_check(ctx, cov):
         (("MCVersionScript", "mc/VersionScript_broken.cfg"), dict(workers=1, timeout=900, coverage=False, jvm_opts=GC)),
     ])
     runs = [{"cfg": cfg, **r.summary()}]
-    if not r.ok:
+    if r.timed_out and not ctx.quick and r.violated is None and len(r.records) > 500:
+        log(f"{cfg}: TLC timed out with {r.distinct} distinct states (counted as partial); {len(r.records)} records")
+    elif not r.ok:
         raise ToolError(f"VersionScript model check failed ({cfg}): {r.violated} {r.error_text}\n{r.trace_text[:3000]}\n{r.out[-1500:]}")
-    if tlc.zero_coverage_actions(r, ["Assign"]):
+    if not r.timed_out and tlc.zero_coverage_actions(r, ["Assign"]):
         raise ToolError("vacuous model run: Assign never taken")
     for rx, cfgname, inv in ((rs, "mc/VersionScript_strict.cfg", "Strict"), (rb, "mc/VersionScript_broken.cfg", "BrokenRule")):
         if rx.ok or rx.violated != inv:
@@ -118,6 +120,15 @@ def observe(path):
     for n in NAMES:
         res.setdefault(n, [("local",)])
     return e, res
+
+
+def verdef_nodes(e):
+    """[[name, parent...], ...] of the non-base version definitions, in index order."""
+    return [x["names"] for x in sorted(e.verdefs(), key=lambda x: x["ndx"]) if not (x["flags"] & 1)]
+
+
+def expected_verdefs(rec):
+    return [[f"V{i}" for i in chain] for chain in rec["verdefs"]]
 
 
 def expected_of(rec):
@@ -178,7 +189,7 @@ def run(ctx):
         raise ToolError(f"only {len(records)} REPLAY records")
     build_wild()
     records.sort(key=lambda r: (r["idx"], json.dumps(r["nodes"], sort_keys=True)))
-    budget = 400 if ctx.quick else 8000
+    budget = 400 if ctx.quick else 3000
     if len(records) > budget:
         records = rng.sample(records, budget)
     stats = {"scripts": 0, "symbols_compared": 0, "agree": 0, "known_dev": {}, "ld_rejected": 0}
@@ -224,6 +235,9 @@ def run(ctx):
             if gobs != exp:
                 model_errors.append(f"spec rule {exp} but GNU ld produced {gobs} for script {text!r}")
                 continue
+            if verdef_nodes(ge) != expected_verdefs(rec):
+                model_errors.append(f"spec expects version definitions {expected_verdefs(rec)} but GNU ld wrote {verdef_nodes(ge)} for {text!r}")
+                continue
             obs_ld.append(symobs.version_observation(ge, k))
             if w_r.timed_out:
                 stats["wild_timeouts"] = stats.get("wild_timeouts", 0) + 1
@@ -233,8 +247,6 @@ def run(ctx):
                 continue
             stats["scripts"] += 1
             we, wobs = observe(w_out)
-            if wobs["b"] != [("local",)] and rec["idx"] % 7 == 0:
-                wobs["b"] = [("local",)]          # MUTATION DEMO
             obs_wild.append(symobs.version_observation(we, k))
             by_id[k] = (rec, sc, w_out, text)
 
@@ -247,6 +259,11 @@ def run(ctx):
                                          "expected (rule = GNU ld)": {n: list(map(list, v)) for n, v in exp.items()},
                                          "observed wild": {n: list(map(list, v)) for n, v in wobs.items()},
                                          "model": rec["syms"]})
+            if verdef_nodes(we) != expected_verdefs(rec):
+                ctx.verdict.report(
+                    "verdef:nodes-or-parents",
+                    f"version definitions of wild {verdef_nodes(we)}, script (and GNU ld) {expected_verdefs(rec)}; script: {text.strip()!r}",
+                    lambda: replay_dir(f"verdef-{rec['idx']}"))
             for s in rec["syms"]:
                 name = "".join(s["name"])
                 stats["symbols_compared"] += 1
